@@ -49,6 +49,26 @@ def poly1d_supplier(x, y):
     return np.poly1d(np.polyfit(x, y, 0))
 
 
+_OVERRIDE = {}
+
+
+def override_classes():
+    """user strategies that supply their sampling function by overriding the documented hook: directly, and inherited
+    from a class in between (module-level names, so that copies and pickles of the objects work)"""
+    from traffic_weaver import rfa as _rfa
+    if _OVERRIDE.get("base") is not _rfa.FunctionRFA:
+        class TwvPolyRFA(_rfa.FunctionRFA):
+            def _get_sampling_function(self):
+                return poly_supplier(self.x, self.y)
+
+        class TwvPolyMemberRFA(TwvPolyRFA):
+            pass
+        TwvPolyRFA.__qualname__, TwvPolyMemberRFA.__qualname__ = "TwvPolyRFA", "TwvPolyMemberRFA"
+        globals()["TwvPolyRFA"], globals()["TwvPolyMemberRFA"] = TwvPolyRFA, TwvPolyMemberRFA
+        _OVERRIDE.update(base=_rfa.FunctionRFA, classes=(TwvPolyRFA, TwvPolyMemberRFA))
+    return _OVERRIDE["classes"]
+
+
 def gen_series(rng, m, ties=True, integer=False):
     x = rng.increasing(m, jitter=(not integer and rng.random() < 0.2))
     if integer:
@@ -91,7 +111,9 @@ def gen_case(rng, strategies=ALL, max_m=20, max_n=24, integer_ok=True):
     integer = integer_ok and rng.random() < 0.2
     x, y = gen_series(rng, m, integer=integer)
     c = {"strategy": s, "n": n, "x": [str(v) for v in x], "y": [str(v) for v in y], "int_x": integer,
-         "supplier": rng.choice(["poly", "poly", "falsy", "poly1d0"]),
+         # how the user's sampling function reaches the strategy: the supplier argument, or the documented alternative -
+         # overriding _get_sampling_function() - in the class used, in a class between it and FunctionRFA, on the instance
+         "supplier": rng.choice(["poly", "poly", "falsy", "poly1d0", "override", "override2", "instance"]),
          "objhist": rng.choice(["same", "same", "same", "scribble", "refill", "reenter", "sibling", "clone"]),
          "call": rng.choice(["keyword", "keyword", "positional"]), "argrep": S.pick_argrep(rng, 0.7)}
     if s in WINDOW:
@@ -131,7 +153,7 @@ def kwargs_of(c):
             kw["exp"] = c["exp"]
         if "smooth" in c:
             kw["adaptive_smooth"] = c["smooth"]
-    if c["strategy"] == "function":
+    if c["strategy"] == "function" and c.get("supplier") not in ("override", "override2", "instance"):
         kw["sampling_function_supplier"] = {"falsy": falsy_supplier, "poly1d0": poly1d_supplier}.get(c.get("supplier"), poly_supplier)
     return kw
 
@@ -156,6 +178,17 @@ def construct(c, xb, yb):
     rep = c.get("argrep", "plain")
     n = S.count(c["n"], {"0d": "alt"}.get(rep, rep), narrow=s in ("pc", "cubic")) if c["n"] >= 2 else c["n"]
     kw = kwargs_of(c)
+    if s == "function" and c.get("supplier") in ("override", "override2", "instance"):
+        from traffic_weaver import rfa as _rfa
+        _Base, _Member = override_classes()
+        if c["supplier"] == "instance":
+            try:
+                obj = _rfa.FunctionRFA(xb, yb, n)
+            except ValueError:
+                raise RuntimeError("FunctionRFA without a supplier refused at construction (the hook can no longer be set on the object)")
+            obj._get_sampling_function = lambda: poly_supplier(obj.x, obj.y)
+            return obj
+        return (_Base if c["supplier"] == "override" else _Member)(xb, yb, n)
     if c.get("call") == "positional" and s in POSITIONAL:
         names = POSITIONAL[s]
         last = max([i for i, k in enumerate(names) if k in kw], default=-1)
